@@ -248,8 +248,22 @@ func mutateJSON(rt *rapid.T, valid []byte) ([]byte, string) {
 				desc = "value-array-of-scalars"
 			}
 		case 7:
-			n["extra"] = "x"
-			desc = "extra-key"
+			if rapid.Bool().Draw(rt, "casevariants") {
+				// the member is spelled in other letter cases, twice, with different contents (and no exact spelling)
+				k := rapid.SampledFrom([]string{"tag", "type", "value"}).Draw(rt, "casekey")
+				old, had := n[k]
+				delete(n, k)
+				alt := rapid.SampledFrom(wrongKinds).Draw(rt, "altvalue")
+				if !had {
+					old = "x"
+				}
+				n[strings.ToUpper(k[:1])+k[1:]] = old
+				n[strings.ToUpper(k)] = alt
+				desc = "case-variant-members"
+			} else {
+				n["extra"] = "x"
+				desc = "extra-key"
+			}
 		case 8:
 			delete(n, "type")
 			n["value"] = []any{}
